@@ -169,3 +169,23 @@ def flowsend(log):
         elif k == "end":
             out.append({"ev": "end", "terminated": any(x["k"] == "ev" and x["cls"] == "ConnectionTerminated" for x in log)})
     return out
+
+
+def wire(log):
+    cfg = next(e["cfg"] for e in log if e["k"] == "cfg")
+    out = []
+    pk = {}
+    for e in log:
+        if e["k"] == "pkt":
+            pk.setdefault(e["dg"], []).append(e)
+    for e in log:
+        if e["k"] == "tx":
+            infl = 0
+            for d in e["dgs"]:
+                ps = pk.get(d["id"], [])
+                if any(p.get("inflight") for p in ps):
+                    infl += sum(p["len"] for p in ps if p.get("inflight") or p["type"] == "dgram_padding")
+            out.append({"ev": "tx", "ep": e["ep"], "cwnd0": e["st0"]["cwnd"], "bif0": e["st0"]["bif"], "probe0": e["st0"]["probe"],
+                        "mds": cfg["mds"], "inflight": infl, "ndg": len(e["dgs"]),
+                        "closing": e["st"]["state"] in END_STATES or e["st0"]["state"] in END_STATES})
+    return out
